@@ -192,6 +192,33 @@ def nest(x):
     cross("body:nest")
     return R
 
+# ---- calls that end with the library's OWN error (no injected fault): a condition asking for a name the call does not
+# ---- provide, an error factory returning a non-exception, a parameter named ``result`` on a function with postconditions
+@icontract.require(lambda x, zz: c("zp", x))
+@icontract.require(lambda x: c("zp0", x))
+def fz(x):
+    cross("body:fz")
+    return R
+@icontract.require(lambda x, zz: c("zp", x))
+@icontract.require(lambda x: c("zp0", x))
+async def afz(x):
+    cross("body:afz")
+    return R
+@icontract.require(lambda x: c("bp", x), error=lambda x: 42)
+@icontract.ensure(lambda result: c("bq", result), error=lambda result: 42)
+def fbad(x):
+    cross("body:fbad")
+    return R
+@icontract.require(lambda x: c("bp", x), error=lambda x: 42)
+@icontract.ensure(lambda result: c("bq", result), error=lambda result: 42)
+async def afbad(x):
+    cross("body:afbad")
+    return R
+@icontract.ensure(lambda x: c("rq", x))
+def fres(x, result=None):
+    cross("body:fres")
+    return R
+
 class WB(icontract.DBC):
     @icontract.require(lambda self, x: c("wb", x))
     def w(self, x):
@@ -460,6 +487,74 @@ def check_scenario(drv, pristine, scen, acc, second=None):
                     break
 
 
+# (name, is_async, conditions to set falsy, call)
+LIB_ENDINGS = [
+    ("f(x, _ARGS=1)", False, None, lambda ns, o, x: ns["f"](x, _ARGS=1)),
+    ("f(x, _KWARGS=1)", False, None, lambda ns, o, x: ns["f"](x, _KWARGS=1)),
+    ("af(x, _ARGS=1)", True, None, lambda ns, o, x: ns["af"](x, _ARGS=1)),
+    ("m(x, _KWARGS=1)", False, None, lambda ns, o, x: o.m(x, _KWARGS=1)),
+    ("am(x, _ARGS=1)", True, None, lambda ns, o, x: o.am(x, _ARGS=1)),
+    ("nest(x, _ARGS=1)", False, None, lambda ns, o, x: ns["nest"](x, _ARGS=1)),
+    ("fz(x)", False, None, lambda ns, o, x: ns["fz"](x)),
+    ("fz(x) first condition falsy", False, "zp0", lambda ns, o, x: ns["fz"](x)),
+    ("afz(x)", True, None, lambda ns, o, x: ns["afz"](x)),
+    ("fbad(x) pre falsy", False, "bp", lambda ns, o, x: ns["fbad"](x)),
+    ("fbad(x) post falsy", False, "bq", lambda ns, o, x: ns["fbad"](x)),
+    ("afbad(x) pre falsy", True, "bp", lambda ns, o, x: ns["afbad"](x)),
+    ("afbad(x) post falsy", True, "bq", lambda ns, o, x: ns["afbad"](x)),
+    ("fres(x)", False, None, lambda ns, o, x: ns["fres"](x)),
+    ("fres(x) post falsy", False, "rq", lambda ns, o, x: ns["fres"](x)),
+]
+LIB_EXPECT = {"fz(x) first condition falsy": "ViolationError"}
+
+
+def check_library_endings(drv, pristine, acc):
+    """No injected fault: the call ends with the library's own documented error. Twice in a row it must be observed
+    identically (the second call is checked like the first), and the probes of every other callable must be pristine."""
+    ns = drv.ns
+    for name, is_async, falsy, thunk in LIB_ENDINGS:
+        def once(obj):
+            ns["T"].clear()
+            if falsy:
+                ns["T"][falsy] = False
+            del ns["TRACE"][:]
+            ns["FAULT"]["armed"] = False
+            try:
+                r = thunk(ns, obj, ns["Arg"]())
+                if is_async:
+                    r = core.run_coro(r)
+                out = ("ret", None)
+            except BaseException as e:
+                out = ("exc", type(e).__name__)
+            return tuple(ns["TRACE"]), out
+
+        def go():
+            ns["T"].clear()
+            obj = core.fresh_ctx_run(ns["K"], ns["Arg"]())
+            first = once(obj)
+            second = once(obj)
+            return first, second, probes(drv, obj)
+        first, second, obs = core.fresh_ctx_run(go)
+        acc.case(("library_ending", name), True, len(first[0]) + len(second[0]), first[1])
+        feats = {"call": name, "falsy": falsy, "kind": "library_error"}
+
+        def viol(sym, detail):
+            acc.violation(core.Violation(PROP, sym, feats, detail, spec={"library_ending": name}, script=SRC))
+        want = LIB_EXPECT.get(name, "TypeError")
+        if first[1] != ("exc", want):
+            viol("documented_error_not_raised", "{}: expected the library's {} but the call ended with {} (trace {})".format(name, want, first[1], list(first[0])))
+            continue
+        if second != first:
+            viol("not_rearmed", "{} ended with the library's own {}; the same call again in the same context: first trace/outcome {} {} "
+                 "but then {} {}".format(name, want, list(first[0]), first[1], list(second[0]), second[1]))
+            continue
+        if obs != pristine:
+            a, b = next((a, b) for a, b in zip(pristine, obs) if a != b)
+            viol("not_rearmed", "after {} ended with the library's own {}: probe {}(falsy={}) pristine trace/outcome {} {} but now {} {}".format(
+                name, want, a[0], a[1], list(a[2]), a[3], list(b[2]), b[3]))
+    acc.sample({"library_endings": [e[0] for e in LIB_ENDINGS]}, cap=1)
+
+
 def pristine_probes(drv):
     def go():
         drv.ns["T"].clear()
@@ -505,6 +600,9 @@ def work(chunk):
     again = pristine_probes(drv)
     if again != pristine:
         raise RuntimeError("harness nondeterminism: pristine probe observations differ between two runs")
+    if any(item == "library_endings" for item in chunk):
+        check_library_endings(drv, pristine, acc)
+        chunk = [item for item in chunk if item != "library_endings"]
     for item in chunk:
         if not isinstance(item[0], tuple):
             check_scenario(drv, pristine, item, acc)
@@ -517,7 +615,7 @@ def work(chunk):
 
 def run(tier, t0):
     sc = scenarios(tier)
-    items = list(sc) + ["body_differential"]
+    items = list(sc) + ["body_differential", "library_endings"]
     if tier == "thorough":
         # sequences of two faulted calls: the second one faulted at each of its first 8 crossings
         for s in sc:
@@ -549,6 +647,12 @@ def replay(path):
     pristine = pristine_probes(drv)
     if "body_differential" in data:
         check_body_differential(acc)
+        for v in acc.violations[:5]:
+            print("VIOLATION property={} replay={}".format(PROP, path))
+            print(" ", v.symptom, v.detail[:400])
+        return 1 if acc.violations else 0
+    if "library_ending" in data:
+        check_library_endings(drv, pristine, acc)
         for v in acc.violations[:5]:
             print("VIOLATION property={} replay={}".format(PROP, path))
             print(" ", v.symptom, v.detail[:400])
